@@ -156,3 +156,21 @@ Print Assumptions C06_reachable_inv.
 Print Assumptions C06_revert_ok.
 Print Assumptions C06_shares_wf.
 Print Assumptions C06_exact_split.
+
+(* Events and vault writes of finalize_fees_for_commit (model: fee_events / vault_writes / proposer_reward).
+   Replaying the events (PayFee = -amount on its vault, Deposit = +amount) from the balances before any
+   fee was locked gives exactly what finalisation writes back, for every vault; the PayFee total is the
+   amount taken from the locking vaults; PayFee total + free credit used = Deposit total + burnt amount =
+   total cost (this is the per-transaction conservation statement C03/C04 build on). *)
+Theorem C06_events_replay_to_balances : forall sh r ok,
+  Inv r -> Pos r -> EffOk r -> TipExact (cp r) (tp_tip r) -> tip_wf (tp_tip r) -> owed r = 0 ->
+  shares_wf sh -> LocksBounded (locked r) -> deducted r <= I192_MAX ->
+  exists s o,
+    finalize r = Some s /\ distribute sh s (free_credit r) ok = DOk o
+    /\ (forall v, evs_delta v (fee_events s o) = sumk (vault_writes o) v - sumk (locks_kv (locked r)) v)
+    /\ evs_in (fee_events s o) = bdsum (d_payments o)
+    /\ evs_in (fee_events s o) + d_free_used o = evs_out (fee_events s o)
+    /\ evs_out (fee_events s o) = d_collected o.
+Proof. exact events_replay. Qed.
+
+Print Assumptions C06_events_replay_to_balances.
